@@ -7,6 +7,7 @@ vf/decoders.py and compared with the value (nesting, list order, key set, string
 code point, booleans/nulls, numbers as exact rationals). Unrepresentable values must be errors.
 """
 import itertools
+import os
 
 from vf import core, decoders, refsem
 from vf.decoders import Invalid
@@ -261,6 +262,74 @@ def work_source(chunk):
     return {"evals": len(reqs), "hist": hist, "viol": viol[:300], "sample": reqs[len(reqs) // 2]["src"] if reqs else None}
 
 
+ART_EXT = {"json": "json", "yaml": "yaml", "yamlmulti": "yaml", "toml": "toml"}
+OLD_ARTIFACT = ("# artifact of an earlier, longer build\n" * 200).encode()
+
+
+def artifact_values():
+    """the sub-family sent through real builds: every scalar in every position, the pool of
+    format-significant strings at top level, as tuple value and as key, the short chains, the mixed
+    and multi-document lists and the constraint values"""
+    pool = set(STRINGS)
+    for c, w in values(False):
+        if c.startswith(("scalar", "multi", "mixed", "constraint")):
+            yield c, w
+        elif c == "string-top" and w in pool:
+            yield c, w
+        elif c == "string-tuple-value" and w["t"][0][1] in pool:
+            yield c, w
+        elif c == "string-tuple-key" and w["t"][0][0] in pool:
+            yield c, w
+        elif c == "chain" and len(core.json.dumps(w)) <= 30:
+            yield c, w
+
+
+def work_artifact(chunk):
+    """third observation point: the artifact file the real `ucg build` writes for `out <fmt> v;`,
+    in a directory where an earlier and longer artifact of the same name is still present"""
+    import shutil
+    import tempfile
+    hist = {}
+    viol = []
+    n = 0
+    d = tempfile.mkdtemp(prefix="ucgverif-c03-")
+    try:
+        for cls, w in chunk:
+            e = wire_to_expr(w)
+            if e is None:
+                continue
+            try:
+                lit = refsem.pr(e)
+            except ValueError:
+                continue
+            for fmt in FORMATS:
+                art = os.path.join(d, "v." + ART_EXT[fmt])
+                with open(art, "wb") as f:
+                    f.write(OLD_ARTIFACT)
+                with open(os.path.join(d, "v.ucg"), "w") as f:
+                    f.write("let v = %s;\nout %s v;\n" % (lit, fmt))
+                rc, out, err = core.run_ucg(["build", "v.ucg"], cwd=d)
+                n += 1
+                if rc == 0:
+                    with open(art, "rb") as f:
+                        data = f.read()
+                    try:
+                        oc, detail = judge(fmt, w, {"ok": {"utf8": data.decode("utf-8")}})
+                    except UnicodeDecodeError:
+                        oc, detail = "NON-UTF8-OUTPUT", {"bytes": repr(data[:80])}
+                elif rc == 1:
+                    oc, detail = judge(fmt, w, {"err": err.decode("utf-8", "replace")})
+                else:
+                    oc, detail = "CRASH", {"rc": rc, "stderr": err.decode("utf-8", "replace")[-300:]}
+                k = "artifact-%s:%s" % (fmt, oc)
+                hist[k] = hist.get(k, 0) + 1
+                if detail is not None:
+                    viol.append((fmt, "art-" + cls, w, oc, detail))
+    finally:
+        shutil.rmtree(d, ignore_errors=True)
+    return {"evals": n, "hist": hist, "viol": viol[:300], "sample": None}
+
+
 def abstract_value(w, top=True):
     if w is None:
         return "NULL"
@@ -292,7 +361,9 @@ def run(ctx):
                 "each at top level, as tuple value, list item, nested, and (strings) as tuple key; every skeleton of depth <= %d and width <= %d "
                 "over 5 leaves; every list/tuple alternation chain to depth 5 ending in each leaf and each empty container; mixed lists; "
                 "multi-document lists; constraint values. Each value x {json, yaml, toml, yamlmulti} through the registry converter, and every "
-                "literal-printable value again through `convert <fmt> v` in a program. evaluations = (value, format, route) triples; all "
+                "literal-printable value again through `convert <fmt> v` in a program; scalars in every position, the format-significant strings as "
+                "value and key, short chains, mixed / multi-document lists and constraint values once more through the real `ucg build` of "
+                "`out <fmt> v;` into a directory that still holds a longer artifact of the same name (the file is decoded). evaluations = (value, format, route) triples; all "
                 "distinct; non-trivial = the converter produced output or an error that was judged." % (
                     len(SCALARS), len(string_pool(3 if thorough else 2)), 3 if thorough else 2, 2, 3 if thorough else 2))
     viol = []
@@ -309,6 +380,10 @@ def run(ctx):
         absorb(part)
     src_vals = ((c, w) for c, w in values(False) if not c.startswith("string") or len(w if isinstance(w, str) else "") <= 1 or c.endswith("top"))
     for part in core.pmap_gen(work_source, src_vals, chunk=150):
+        absorb(part)
+
+    art_vals = list(artifact_values())
+    for part in core.pmap(work_artifact, art_vals, chunk=12):
         absorb(part)
 
     srv = core.Server()
@@ -350,10 +425,14 @@ def run(ctx):
     budget = 400
     for fmt, cls, w, oc, detail in viol:
         # signature: format, failure class, abstracted minimal witness
-        if budget > 0 and not cls.startswith("src-") or (budget > 0 and oc != "SOURCE-VALUE-DIFFERS"):
-            budget -= 1
-            w = shrink(fmt, w, oc) if oc != "SOURCE-VALUE-DIFFERS" else w
-        sig = "%s:%s:%s" % (fmt, oc, abstract_value(w))
+        if cls.startswith("art-"):
+            # the artifact route is not shrunk (the shrinker works on the registry converter)
+            sig = "artifact:%s:%s:%s" % (fmt, oc, abstract_value(w))
+        else:
+            if budget > 0 and not cls.startswith("src-") or (budget > 0 and oc != "SOURCE-VALUE-DIFFERS"):
+                budget -= 1
+                w = shrink(fmt, w, oc) if oc != "SOURCE-VALUE-DIFFERS" else w
+            sig = "%s:%s:%s" % (fmt, oc, abstract_value(w))
         if sig in seen:
             ctx.violations[sig]["count"] += 1
             continue
@@ -361,11 +440,15 @@ def run(ctx):
         if len(seen) > 120:
             break
         ctx.violation(sig, "%s %s for %s" % (fmt, oc, core.json.dumps(w, ensure_ascii=False)[:160]),
-                      {"kind": "convert", "fmt": fmt, "val": w, "class": oc, "route": "source" if cls.startswith("src-") else "registry", "detail": detail})
+                      {"kind": "convert", "fmt": fmt, "val": w, "class": oc, "route": "source" if cls.startswith("src-") else ("artifact" if cls.startswith("art-") else "registry"), "detail": detail})
     srv.close()
 
 
 def replay(case):
+    if case.get("route") == "artifact":
+        part = work_artifact([("replay", case["val"])])
+        vs = [v for v in part["viol"] if v[0] == case["fmt"]]
+        return not vs, {"violations": [(v[3], v[4]) for v in vs]}
     srv = core.Server()
     try:
         rs = srv.req({"op": "convert", "fmt": case["fmt"], "val": case["val"]})
